@@ -16,6 +16,8 @@ import (
 	"sort"
 	"strconv"
 	"strings"
+	"sync"
+	"sync/atomic"
 
 	toml "github.com/pelletier/go-toml/v2"
 	"github.com/spf13/cobra"
@@ -1027,6 +1029,39 @@ func main() {
 			case sb.Auth.Token != envTok || len(sb.AllowPorts) != 4:
 				c.Violate("file", "file:server:toml", fmt.Sprintf("server file: token %q, %d allowPorts entries", sb.Auth.Token, len(sb.AllowPorts)), splain)
 			}
+		}
+	}
+
+	// (9) supplementary, free-running (not exhaustive): a strict and a non-strict load overlap in time — what a reload
+	// through the admin API and a background load do. Every strict load of a document with an unknown nested key must
+	// fail, every non-strict load of it must succeed, whatever the other goroutine is doing.
+	{
+		bad := []byte(`{"serverAddr":"1.2.3.4","proxies":[{"name":"a","type":"tcp","localPort":1,"remotePort":2,"noSuchField":1}]}`)
+		var wgc sync.WaitGroup
+		var strictAccepted, laxRefused int32
+		for g := 0; g < 2; g++ {
+			wgc.Add(2)
+			go func() {
+				defer wgc.Done()
+				for i := 0; i < 400; i++ {
+					if config.LoadConfigure(bad, &v1.ClientConfig{}, true) == nil {
+						atomic.AddInt32(&strictAccepted, 1)
+					}
+				}
+			}()
+			go func() {
+				defer wgc.Done()
+				for i := 0; i < 400; i++ {
+					if config.LoadConfigure(bad, &v1.ClientConfig{}, false) != nil {
+						atomic.AddInt32(&laxRefused, 1)
+					}
+				}
+			}()
+		}
+		wgc.Wait()
+		c.Count("overlap:strict-vs-lax")
+		if strictAccepted > 0 || laxRefused > 0 {
+			c.Violate("overlap", "overlap:strict-vs-lax", fmt.Sprintf("strict and non-strict loads overlapping in time: %d of 800 strict loads accepted an unknown nested field, %d of 800 non-strict loads refused it", strictAccepted, laxRefused), string(bad))
 		}
 	}
 
